@@ -37,8 +37,8 @@ def mc_parts(quick):
 
 def gen_parts(quick):
     base = dict(REAL, Script="<- ScriptNone", GDts="{1}", MaxPn=6, Els="{TRUE, FALSE}")
-    seq = dict(base, Atomic="TRUE", GSpaces="{3}", Depth=6 if quick else 9, MaxRcvd=3 if quick else 4, Ops='{"r", "a", "p", "g", "s"}',
-               Script="<- ScriptSeq")
+    seq = dict(base, Atomic="TRUE", GSpaces="{3}", Depth=6 if quick else 7, MaxRcvd=3, Ops='{"r", "a", "p", "g", "s"}',
+               Script="<- ScriptSeq", GDts="{1}" if quick else "{1, 24}")
     spaces = dict(base, Atomic="TRUE", GSpaces="{1, 2, 3}", Depth=5 if quick else 7, MaxRcvd=2 if quick else 3,
                   Ops='{"r", "a", "p", "g", "s", "t", "d"}', Script="<- ScriptSpaces")
     race = dict(base, Atomic="FALSE", GSpaces="{3}", Depth=7 if quick else 8, MaxRcvd=3 if quick else 4, Ops='{"r", "a", "p", "g", "s"}',
